@@ -18,6 +18,8 @@ DECIDED = ('(a) the payload loop requests min(remaining, buffer) per iteration a
            'k-byte constant (short reads would reject legal encodings).')
 DECIDED_MORE = ('Also: escape analysis of the decoder incl. next() on a sentinel iterator and constant indexing of possibly empty text; count-up payload loop.')
 DECIDED = DECIDED + ' ' + DECIDED_MORE
+DECIDED_R6 = ('Round 6: early-stop bound; unknown length reads limit + 1; empty CONTENT_LENGTH; the RequestError handler of _body hands the caught error to _raise.')
+DECIDED = DECIDED + ' ' + DECIDED_R6
 NOT_DECIDED = ('which spellings of the size line int(x, 16) accepts (sign, underscores, 0x prefix): value semantics of the '
                'conversion; equality of decoded payload with the sent payload beyond the loop-invariant premises above.')
 ASSUMPTIONS = ['wsgi.input.read(n) returns at most n bytes (PEP 3333)', 'int(b, 16) raises ValueError on non-hex text']
